@@ -540,6 +540,9 @@ func c17Dump(st *trie.SlimTrie, marshalLen int) string {
 	sb.WriteString(c17DumpVL("IP", m.InnerPrefixes))
 	sb.WriteString(c17DumpVL("LP", m.LeafPrefixes))
 	sb.WriteString(c17DumpVL("LV", m.Leaves))
+	// the model side prints here whether its two encoders (Size.v and Bits.v + wire) give the
+	// same bytes and Size.marshal_size is their length (SizeBitsCheck.models_same_bytes)
+	sb.WriteString("X 1\n")
 	return sb.String()
 }
 
